@@ -56,6 +56,29 @@ def scope_problem(container, filters, resolver_cls, skip=None):
     modules = {}
     for cls in classes:
         modules.setdefault(cls.target_module, []).append(cls)
+    # a compound field is bindable only if no python type is shared between two of its choices (XmlVarBuilder.build_choices refuses it otherwise)
+    def ambiguous(cls):
+        for a in cls.attrs:
+            seen = {}
+            for c in a.choices:
+                keys = set()
+                for t in c.types:
+                    dt = t.datatype
+                    keys.add(dt.type.__name__ if dt else t.qname)
+                for k in keys:
+                    if k in seen and seen[k] != c.name:
+                        return f"class {cls.name!r}: compound field {a.name!r}: choices {seen[k]!r} and {c.name!r} both bind {k!r} (not bindable: ambiguous types)"
+                    seen[k] = c.name
+        for inner in cls.inner:
+            p = ambiguous(inner)
+            if p:
+                return p
+        return None
+
+    for cls in classes:
+        p = ambiguous(cls)
+        if p:
+            return p
     for module in sorted(modules):
         resolver = resolver_cls(registry=registry)
         resolver.process(modules[module])
